@@ -527,18 +527,25 @@ class Fold(ast.NodeTransformer):
             return ast.copy_location(ast.Constant(value=r), n)
         return n
 
-    def visit_BoolOp(self, n):
-        n = self.generic_visit(n)
-        if any(isinstance(v, ast.Constant) for v in n.values):
-            r = self.nz.fold_test(n)
+    def _fold_in_test(self, t):
+        """simplify a boolean operator with constant operands -- valid in a TEST position only (`x or ""` as a value is not `x`)"""
+        if isinstance(t, ast.BoolOp) and any(isinstance(v, ast.Constant) for v in ast.walk(t)):
+            r = self.nz.fold_test(t)
             if isinstance(r, bool):
-                return ast.copy_location(ast.Constant(value=r), n)
+                return ast.copy_location(ast.Constant(value=r), t)
             if isinstance(r, ast.AST):
                 return r
+        if isinstance(t, ast.UnaryOp) and isinstance(t.op, ast.Not):
+            t.operand = self._fold_in_test(t.operand)
+        return t
+
+    def visit_While(self, n):
+        n = self.generic_visit(n)
         return n
 
     def visit_IfExp(self, n):
         n = self.generic_visit(n)
+        n.test = self._fold_in_test(n.test)
         t = self.nz.fold_test(n.test)
         if t is True:
             return n.body
@@ -548,6 +555,7 @@ class Fold(ast.NodeTransformer):
 
     def visit_If(self, n):
         n = self.generic_visit(n)
+        n.test = self._fold_in_test(n.test)
         if len(n.body) == 1 and isinstance(n.body[0], ast.Pass) and n.orelse and getattr(n, "_sa_inl", False):
             n.test = negate(n.test)
             n.body, n.orelse = n.orelse, []
@@ -1377,10 +1385,27 @@ def _may_store(nz):
         nz._by_name.setdefault(f.name, set()).add(q)
     direct: Dict[str, set] = {}
     calls: Dict[str, set] = {}
+    nz._store_cls = {}   # (attribute, function) -> classes of the receivers it is stored on ('?' = unknown)
     for q, f in funcs.items():
+        try:
+            ftq = nz.world.types(f)
+        except Exception:
+            ftq = None
         for n in ast.walk(f.node):
             if isinstance(n, ast.Attribute) and isinstance(n.ctx, (ast.Store, ast.Del)):
                 direct.setdefault(n.attr.lstrip("_"), set()).add(q)
+                cls_ = "?"
+                if isinstance(n.value, ast.Name) and f.cls is not None and f.params and n.value.id == f.params[0] and f.kind in ("method", "property", "setter"):
+                    cls_ = f.cls.qname
+                elif ftq is not None:
+                    t_ = ftq.type_of(n.value)
+                    if t_ in ("Node", "OptNode"):
+                        cls_ = "metapype.model.node.Node"
+                    elif t_ == "Rule":
+                        cls_ = "metapype.eml.rule.Rule"
+                    elif isinstance(t_, str) and (t_.startswith("inst:") or t_.startswith("class:")):
+                        cls_ = t_.split(":", 1)[1]
+                nz._store_cls.setdefault(n.attr.lstrip("_"), {}).setdefault(q, set()).add(cls_)
         calls[q] = _callees(nz, f)
         if "*" in calls[q]:
             direct.setdefault("*", set()).add(q)
@@ -1400,27 +1425,225 @@ def _may_store(nz):
     return out
 
 
-def attr_alias(nz, body, fi):
-    """x = a.b.c bound once, where nothing the function does or calls can re-bind .b / .c: read a.b.c where x is read
-    (a hoisted local; substituting it back gives one normal form for rules that look at what is read)"""
-    if not any(isinstance(n, ast.Assign) and len(n.targets) == 1 and isinstance(n.targets[0], ast.Name) and isinstance(n.value, ast.Attribute)
-               for n in walk_stmts(body, nested=False)):
-        return body
+def _find_block(body, stmt):
+    """(statement list, index) that directly contains ``stmt``"""
+    def rec(stmts):
+        for i, s in enumerate(stmts):
+            if s is stmt:
+                return stmts, i
+            for fld in ("body", "orelse", "finalbody"):
+                b = getattr(s, fld, None)
+                if isinstance(b, list) and b and isinstance(b[0], ast.stmt):
+                    r = rec(b)
+                    if r:
+                        return r
+            if isinstance(s, ast.Try):
+                for h in s.handlers:
+                    r = rec(h.body)
+                    if r:
+                        return r
+            if isinstance(s, ast.Match):
+                for c in s.cases:
+                    r = rec(c.body)
+                    if r:
+                        return r
+        return None
+    return rec(body)
+
+
+def _enclosing_loops(body, stmt):
+    out = []
+
+    def rec(stmts, loops):
+        for s in stmts:
+            if s is stmt:
+                out.extend(loops)
+                return True
+            inner = loops + [s] if isinstance(s, (ast.For, ast.While)) else loops
+            for fld in ("body", "orelse", "finalbody"):
+                b = getattr(s, fld, None)
+                if isinstance(b, list) and b and isinstance(b[0], ast.stmt) and rec(b, inner):
+                    return True
+            if isinstance(s, ast.Try):
+                for h in s.handlers:
+                    if rec(h.body, inner):
+                        return True
+        return False
+    rec(body, [])
+    return out
+
+
+def _callee_names_in(nz, fi, stmts):
+    """qualified names of the repository functions the statements may call (as _callees, restricted to these statements)"""
+    out = set()
+    try:
+        ft = nz.world.types(fi)
+    except Exception:
+        ft = None
+    for n in walk_stmts(stmts):
+        if not isinstance(n, ast.Call):
+            continue
+        tgs = []
+        if ft is not None:
+            try:
+                tgs = nz.world.resolve_call(ft, n)
+            except Exception:
+                tgs = []
+        hit = False
+        for t in tgs:
+            if t.func is not None:
+                out.add(t.func.qname)
+                hit = True
+            elif t.kind in ("ext", "builtin", "method", "class"):
+                hit = True
+                if t.kind == "builtin" and t.name in ("setattr", "delattr"):
+                    out.add("*")
+        if not hit:
+            nm = n.func.attr if isinstance(n.func, ast.Attribute) else n.func.id if isinstance(n.func, ast.Name) else None
+            if nm:
+                out |= nz._by_name.get(nm, set())
+                if nm in ("setattr", "delattr"):
+                    out.add("*")
+    return out
+
+
+def _may_store_cls(nz, attr, cls):
+    """functions that may (transitively) assign ``attr`` on an object that could be of class ``cls`` (None = any class)"""
+    key = (attr, cls)
+    cache = nz.__dict__.setdefault("_msc", {})
+    if key in cache:
+        return cache[key]
     ms = _may_store(nz)
-    star = ms.get("*", set())
-    called = set(nz._calls.get(fi.qname, set())) if fi.qname in nz._calls else _callees(nz, fi)
-    # calls that arrived by dissolving helpers
-    for n in walk_stmts(body):
-        if isinstance(n, ast.Call) and getattr(n, "_sa_inl_call", False):
-            pass
-    extra = set()
-    for q in list(nz.inlined_sites):
-        if q in nz.prog.funcs:
-            extra |= nz._calls.get(q, set())
-    called |= extra
-    if called & star or "*" in called:
+    per = nz._store_cls.get(attr, {})
+    seeds = {q for q, cs in per.items() if cls is None or "?" in cs or cls in cs}
+    reach = set(seeds)
+    changed = True
+    while changed:
+        changed = False
+        for q, cs in nz._calls.items():
+            if q not in reach and cs & reach:
+                reach.add(q)
+                changed = True
+    cache[key] = reach
+    return reach
+
+
+def _window_is_quiet(nz, fi, body, a, x, chain, own_loads=0, recv_cls=None):
+    """between the statement ``a`` and the last statement that reads ``x`` nothing assigns an attribute of the chain, directly or
+    through a call; returns False when the reads cannot be located as a window after ``a``"""
+    ms = _may_store(nz)
+    r = _find_block(body, a)
+    if r is None:
+        return False
+    stmts, i = r
+    rest = stmts[i + 1:]
+    if name_loads(rest, x) != name_loads(body, x) - own_loads:
+        return False   # read outside the continuation of its block (e.g. after an enclosing loop's next round)
+    last = max((k for k, s_ in enumerate(rest) if any(isinstance(n, ast.Name) and n.id == x for n in ast.walk(s_))), default=-1)
+    window = rest[:last + 1]
+    # if the definition sits in a loop, the next round runs the rest of the loop body before `a` again -- harmless: x is re-bound
+    for n in walk_stmts(window):
+        if isinstance(n, ast.Attribute) and isinstance(n.ctx, (ast.Store, ast.Del)) and n.attr.lstrip("_") in chain:
+            return False
+    called = _callee_names_in(nz, fi, window)
+    if "*" in called or called & ms.get("*", set()):
+        return False
+    # the innermost attribute is read on a receiver whose class may be known: stores of a like-named attribute of another class do not count
+    for k, c in enumerate(chain):
+        who = _may_store_cls(nz, c, recv_cls if k == 0 else None)
+        if called & who:
+            return False
+    return True
+
+
+def _recv_class(nz, fi, e):
+    """qualified class name of the object an attribute is read from, when the receiver typing knows it"""
+    try:
+        t_ = nz.world.types(fi).type_of(e)
+    except Exception:
+        return None
+    if t_ in ("Node", "OptNode"):
+        return "metapype.model.node.Node"
+    if t_ == "Rule":
+        return "metapype.eml.rule.Rule"
+    if isinstance(t_, str) and (t_.startswith("inst:") or t_.startswith("class:")):
+        return t_.split(":", 1)[1]
+    if isinstance(e, ast.Name) and fi.cls is not None and fi.params and e.id == fi.params[0] and fi.kind in ("method", "property", "setter"):
+        return fi.cls.qname
+    return None
+
+
+def attr_alias(nz, body, fi):
+    """x = a.b.c bound once, where nothing between the binding and the last read of x can re-bind .b / .c (no store in that
+    window, no call in it that may -- resolved call graph -- store such an attribute): read a.b.c where x is read.  Also the
+    reverse: `x = <fresh>; a.f = x` with x bound once: `a.f = <fresh>`, later reads of x read a.f."""
+    has_fwd = any(isinstance(n, ast.Assign) and len(n.targets) == 1 and isinstance(n.targets[0], ast.Name) and isinstance(n.value, ast.Attribute)
+                  for n in walk_stmts(body, nested=False))
+    has_rev = any(isinstance(n, ast.Assign) and len(n.targets) == 1 and isinstance(n.targets[0], ast.Attribute) and isinstance(n.value, ast.Name)
+                  for n in walk_stmts(body, nested=False))
+    if not (has_fwd or has_rev):
         return body
-    local_attr_stores = {n.attr.lstrip("_") for n in walk_stmts(body) if isinstance(n, ast.Attribute) and isinstance(n.ctx, (ast.Store, ast.Del))}
+    _may_store(nz)
+    # ---- f = <call>.attr (a bound method / field of a call result kept in a local): name the call result, then f is an attribute alias
+    for a in [n for n in walk_stmts(body, nested=False) if isinstance(n, ast.Assign)]:
+        if len(a.targets) == 1 and isinstance(a.targets[0], ast.Name) and isinstance(a.value, ast.Attribute) and isinstance(a.value.value, ast.Call) \
+                and single_assignment(body, a.targets[0].id) is a and a.targets[0].id not in fi.params:
+            tmp = nz.fresh("_obj")
+            pre = ast.copy_location(ast.Assign(targets=[ast.Name(id=tmp, ctx=ast.Store())], value=a.value.value, lineno=a.lineno), a)
+            a.value = ast.copy_location(ast.Attribute(value=ast.copy_location(ast.Name(id=tmp, ctx=ast.Load()), a), attr=a.value.attr, ctx=ast.Load()), a.value)
+
+            def ins(stmts_, a=a, pre=pre):
+                out = []
+                for s_ in stmts_:
+                    if s_ is a:
+                        out.append(pre)
+                    out.append(s_)
+                return out
+            body = map_blocks(body, ins)
+            has_fwd = True
+            nz._local_touched = True
+    # ---- reverse form
+    if has_rev:
+        for st in [n for n in walk_stmts(body, nested=False) if isinstance(n, ast.Assign)]:
+            if not (len(st.targets) == 1 and isinstance(st.targets[0], ast.Attribute) and is_atom(st.targets[0]) and isinstance(st.value, ast.Name)):
+                continue
+            x = st.value.id
+            d = single_assignment(body, x)
+            if d is None or x in fi.params or _in_nested_scope_use(body, x) or not (fresh_container_value(d.value) or isinstance(d.value, ast.Constant)):
+                continue
+            r1, r2 = _find_block(body, d), _find_block(body, st)
+            if r1 is None or r2 is None or r1[0] is not r2[0] or r2[1] != r1[1] + 1:
+                continue   # the field must be bound right after the local
+            chain = [st.targets[0].attr.lstrip("_")]
+            e = st.targets[0].value
+            while isinstance(e, ast.Attribute):
+                chain.append(e.attr.lstrip("_"))
+                e = e.value
+            if not isinstance(e, ast.Name) or store_count(body, e.id, fi.params) > 1:
+                continue
+            # no other store to that field after this one
+            stmts, i = r2
+            if not _window_is_quiet(nz, fi, body, st, x, chain, own_loads=1) and name_loads(body, x) > 1:
+                continue
+            target = st.targets[0]
+            new_st = ast.copy_location(ast.Assign(targets=[target], value=d.value, lineno=st.lineno), st)
+
+            def rewrite(stmts_):
+                out = []
+                for s_ in stmts_:
+                    if s_ is d:
+                        continue
+                    out.append(new_st if s_ is st else s_)
+                return out
+            body = map_blocks(body, rewrite)
+            load = copy.deepcopy(target)
+            for n in ast.walk(load):
+                if hasattr(n, "ctx"):
+                    n.ctx = ast.Load()
+            body = [Subst({}, {x: load}).visit(s_) for s_ in body]
+            nz._local_touched = True
+            nz.log.setdefault(fi.qname, []).append(f"local `{x}` bound to the field {norm(load)} right after its creation: the field is read instead")
+    # ---- forward form
     for a in [n for n in walk_stmts(body, nested=False) if isinstance(n, ast.Assign)]:
         if not (len(a.targets) == 1 and isinstance(a.targets[0], ast.Name) and isinstance(a.value, ast.Attribute) and is_atom(a.value)):
             continue
@@ -1432,25 +1655,27 @@ def attr_alias(nz, body, fi):
         while isinstance(e, ast.Attribute):
             chain.append(e.attr.lstrip("_"))
             e = e.value
-        if not isinstance(e, ast.Name) or store_count(body, e.id, fi.params) > 1:
+        if not isinstance(e, ast.Name) or e.id == x:
             continue
-        if e.id == x:
-            continue
-        if any(c in local_attr_stores for c in chain):
-            continue
-        if any(called & ms.get(c, set()) for c in chain):
+        if store_count(body, e.id, fi.params) > 1:
             continue
         if name_loads(body, x) == 0:
             continue
+        if not _window_is_quiet(nz, fi, body, a, x, chain, recv_cls=_recv_class(nz, fi, a.value.value)):
+            continue
         v = a.value
 
-        def rewrite(stmts):
+        def rewrite2(stmts):
             return [s for s in stmts if s is not a]
-        body = map_blocks(body, rewrite)
+        body = map_blocks(body, rewrite2)
         body = [Subst({}, {x: v}).visit(s) for s in body]
         nz._local_touched = True
         nz.log.setdefault(fi.qname, []).append(f"attribute alias `{x}` = {norm(v)} resolved at line {getattr(a, 'lineno', '?')}")
     return body
+
+
+def fresh_container_value(v) -> bool:
+    return isinstance(v, (ast.List, ast.Dict, ast.Set)) or (isinstance(v, ast.Call) and isinstance(v.func, ast.Name) and v.func.id in ("list", "dict", "set") and not v.args)
 
 
 def adjacent_copyprop(nz, body, fi):
